@@ -172,7 +172,12 @@ structure MutReq where
   isOwner : Bool        -- batches.user = caller
   tokenKnown : Bool     -- a batch_updates row (batch_id, token) with the request's token already exists
   emptyPayload : Bool   -- update-fast only: `bunch` and `job_groups` are both empty
+  namesake : Bool       -- the caller's name equals the owner's up to case / accents, but it is a different account
 deriving DecidableEq, Repr
+
+/-- the owner filter `batches.user = %s`: `batches.user` has MySQL's default case- and accent-insensitive collation (only
+`billing_project_users.user_cs` and `billing_projects.name_cs` are case-sensitive, migration 077), so a namesake passes it too -/
+def MutReq.passesOwnerFilter (q : MutReq) : Bool := q.isOwner || q.namesake
 
 structure MutResult where
   ok : Bool         -- 2xx answer (otherwise an HTTP error)
@@ -184,7 +189,7 @@ deriving DecidableEq, Repr
 — found: the existing update is returned; then `SELECT … FROM batches WHERE batches.id = %s AND batches.user = %s` else 404.
 A non-owner finds nothing in either. -/
 def createBatchUpdate (q : MutReq) : MutResult :=
-  if q.isOwner then
+  if q.passesOwnerFilter then
     (if q.tokenKnown then { ok := true, changed := false } else { ok := true, changed := true })
   else { ok := false, changed := false }
 
@@ -196,16 +201,20 @@ def mutate (m : Mutator) (q : MutReq) : MutResult :=
     if !r.ok then r
     else if !q.emptyPayload then
       -- `_create_job_groups` / `_create_jobs` start with the owner-filtered SELECT (404 otherwise)
-      if q.isOwner then { ok := true, changed := true } else { ok := false, changed := r.changed }
+      if q.passesOwnerFilter then { ok := true, changed := true } else { ok := false, changed := r.changed }
     else
-      -- nothing to insert: straight to `_commit_update` (no owner check of its own; only the owner gets here)
+      -- nothing to insert: straight to `_commit_update` (no owner check of its own; only callers that passed the filter get here)
       { ok := true, changed := true }
-  | _ => if q.isOwner then { ok := true, changed := true } else { ok := false, changed := false }
+  | _ => if q.passesOwnerFilter then { ok := true, changed := true } else { ok := false, changed := false }
+
+/-- the batch listings (`GET /api/v1alpha/batches`, `/api/v2alpha/batches`, `/api/v1alpha/batches/completed`) filter on
+`billing_project_users.user = %s` / `batches.user = %s` (case-insensitive columns): is a given batch listed for the caller? -/
+def listed (memberOrOwner namesake : Bool) : Bool := memberOrOwner || namesake
 
 /-- `_create_batch_update` BEFORE commit 4c50f4344: the token lookup `WHERE batch_id = %s AND token = %s` had no user filter -/
 def createBatchUpdateOld (q : MutReq) : MutResult :=
   if q.tokenKnown then { ok := true, changed := false }
-  else if q.isOwner then { ok := true, changed := true }
+  else if q.passesOwnerFilter then { ok := true, changed := true }
   else { ok := false, changed := false }
 
 def mutateOld (m : Mutator) (q : MutReq) : MutResult :=
@@ -215,8 +224,8 @@ def mutateOld (m : Mutator) (q : MutReq) : MutResult :=
     let r := createBatchUpdateOld q
     if !r.ok then r
     else if !q.emptyPayload then
-      if q.isOwner then { ok := true, changed := true } else { ok := false, changed := r.changed }
+      if q.passesOwnerFilter then { ok := true, changed := true } else { ok := false, changed := r.changed }
     else { ok := true, changed := true }
-  | _ => if q.isOwner then { ok := true, changed := true } else { ok := false, changed := false }
+  | _ => if q.passesOwnerFilter then { ok := true, changed := true } else { ok := false, changed := false }
 
 end HailVerif.Access
